@@ -39,6 +39,12 @@ This file is part of libECBUFR.
 #include "bufr_util.h"
 #include "private/gcmemory.h"
 #include "config.h"
+#include <limits.h>
+
+static void print_float_n         ( char *str, size_t size, float fval );
+static void print_scaled_float_n  ( char *str, size_t size, float fval, int scale );
+static void print_double_n        ( char *str, size_t size, double dval );
+static void print_scaled_double_n ( char *str, size_t size, double dval, int scale );
 
 static caddr_t  ValueINT8_gcmemory=NULL;
 static caddr_t  ValueINT16_gcmemory=NULL;
@@ -1202,6 +1208,38 @@ int bufr_print_value( char *outstr, const BufrValue *bv )
  */
 int bufr_print_scaled_value( char *outstr, const BufrValue *bv, int scale )
    {
+   return bufr_snprint_scaled_value( outstr, INT_MAX, bv, scale );
+   }
+
+/**
+ * @english
+ * Same as bufr_print_value() for a buffer of known size: nothing is written
+ * beyond outstr[size-1]; a text that does not fit is cut.
+ * @return 0 if no value, 1 if there was something to print.
+ * @endenglish
+ * @francais
+ * @todo translate to French
+ * @endfrancais
+ * @ingroup descriptor io debug
+ */
+int bufr_snprint_value( char *outstr, size_t size, const BufrValue *bv )
+   {
+   return bufr_snprint_scaled_value( outstr, size, bv, INT_MAX );
+   }
+
+/**
+ * @english
+ * Same as bufr_print_scaled_value() for a buffer of known size: nothing is
+ * written beyond outstr[size-1]; a text that does not fit is cut.
+ * @return 0 if no value, 1 if there was something to print.
+ * @endenglish
+ * @francais
+ * @todo translate to French
+ * @endfrancais
+ * @ingroup descriptor io debug
+ */
+int bufr_snprint_scaled_value( char *outstr, size_t size, const BufrValue *bv, int scale )
+   {
    const char   *str;
    float   fval;
    double  dval;
@@ -1212,6 +1250,7 @@ int bufr_print_scaled_value( char *outstr, const BufrValue *bv, int scale )
 
    if (bv == NULL) return 0;
    if (outstr == NULL) return 0;
+   if (size == 0) return 0;
 
    outstr[0] = '\0';
 
@@ -1227,12 +1266,12 @@ int bufr_print_scaled_value( char *outstr, const BufrValue *bv, int scale )
             strncpy( str1, str, len );
             str1[len] = '\0';
 
-            sprintf( outstr, "\"%s\"", str1 );
+            snprintf( outstr, size, "\"%s\"", str1 );
             free( str1 );
             }
          else
             {
-            strcat(  outstr, "MSNG" );
+            snprintf( outstr, size, "MSNG" );
             }
          hasvalue = 1;
          break;
@@ -1240,11 +1279,11 @@ int bufr_print_scaled_value( char *outstr, const BufrValue *bv, int scale )
          ival = bufr_value_get_int32( bv );
          if ( ival == -1 )
             {
-            strcat(  outstr, "MSNG" );
+            snprintf( outstr, size, "MSNG" );
             }
          else
             {
-            sprintf(  outstr, "%d", ival );
+            snprintf(  outstr, size, "%d", ival );
             }
          hasvalue = 1;
          break;
@@ -1252,11 +1291,11 @@ int bufr_print_scaled_value( char *outstr, const BufrValue *bv, int scale )
          ival = bufr_value_get_int32( bv );
          if ( ival == -1 )
             {
-            strcat(  outstr, "MSNG" );
+            snprintf( outstr, size, "MSNG" );
             }
          else
             {
-            sprintf(  outstr, "%d", ival );
+            snprintf(  outstr, size, "%d", ival );
             }
          hasvalue = 1;
          break;
@@ -1264,11 +1303,11 @@ int bufr_print_scaled_value( char *outstr, const BufrValue *bv, int scale )
          lval = bufr_value_get_int64( bv );
          if ( lval == -1 )
             {
-            strcat(  outstr, "MSNG" );
+            snprintf( outstr, size, "MSNG" );
             }
          else
             {
-            sprintf(  outstr, "%lld", (long long)lval );
+            snprintf(  outstr, size, "%lld", (long long)lval );
             }
          hasvalue = 1;
          break;
@@ -1276,22 +1315,22 @@ int bufr_print_scaled_value( char *outstr, const BufrValue *bv, int scale )
          fval = bufr_value_get_float( bv );
          if (bufr_is_missing_float(fval))
             {
-            strcat(  outstr, "MSNG" );
+            snprintf( outstr, size, "MSNG" );
             }
          else
             {
             if (scale == INT_MAX)
                {
                if ((fval < 0.00001 )||(fval > INT_MAX))
-                  sprintf(  outstr, "%.14E", fval );
+                  snprintf(  outstr, size, "%.14E", fval );
                else
                   {
-                  bufr_print_float( outstr, fval );
+                  print_float_n( outstr, size, fval );
                   }
                }
             else
                {
-               bufr_print_scaled_float( outstr, fval, scale );
+               print_scaled_float_n( outstr, size, fval, scale );
                }
             }
          hasvalue = 1;
@@ -1299,21 +1338,21 @@ int bufr_print_scaled_value( char *outstr, const BufrValue *bv, int scale )
       case VALTYPE_FLT64  :
          dval = bufr_value_get_double( bv );
          if (bufr_is_missing_double(dval))
-            strcat(  outstr, "MSNG" );
+            snprintf( outstr, size, "MSNG" );
          else
             {
             if (scale == INT_MAX)
                {
                if ((dval < 0.00001 )||(dval > INT_MAX))
-                  sprintf(  outstr, "%.14E", dval );
+                  snprintf(  outstr, size, "%.14E", dval );
                else
                   {
-                  bufr_print_double( outstr, dval );
+                  print_double_n( outstr, size, dval );
                   }
                }
             else
                {
-               bufr_print_scaled_double( outstr, dval, scale );
+               print_scaled_double_n( outstr, size, dval, scale );
                }
             }
          hasvalue = 1;
@@ -1759,8 +1798,15 @@ int bufr_between_values( const BufrValue *bv1, const BufrValue *bv, const BufrVa
  */
 void bufr_print_float( char *str, float fval )
    {
-   sprintf( str, "%f", fval );
-   if (bufr_is_trimzero())
+   print_float_n( str, INT_MAX, fval );
+   }
+
+static void print_float_n( char *str, size_t size, float fval )
+   {
+   int  len;
+
+   len = snprintf( str, size, "%f", fval );
+   if (bufr_is_trimzero() && (len >= 0) && ((size_t)len < size))
       str_trimchar( str, '0' );
    }
 
@@ -1784,7 +1830,11 @@ void bufr_print_float( char *str, float fval )
  */
 void bufr_print_scaled_float( char *str, float fval, int scale )
    {
-   int  len;
+   print_scaled_float_n( str, INT_MAX, fval, scale );
+   }
+
+static void print_scaled_float_n( char *str, size_t size, float fval, int scale )
+   {
    char format[256];
 
    if (scale < 0)
@@ -1795,7 +1845,7 @@ void bufr_print_scaled_float( char *str, float fval, int scale )
       {
       sprintf( format, "%%.%df", scale );
       }
-   sprintf( str, format, fval );
+   snprintf( str, size, format, fval );
    }
 
 /**
@@ -1899,17 +1949,48 @@ int64_t bufr_binary_to_int( const char *str )
  */
 void bufr_print_binary ( char *outstr, int64_t  ival, int nbit )
    {
+   bufr_snprint_binary( outstr, INT_MAX, ival, nbit );
+   }
+
+/*
+ * append one character to the text of *len characters held in outstr[size]
+ */
+static void add_char( char *outstr, size_t size, size_t *len, char c )
+   {
+   if (*len + 1 < size)
+      {
+      outstr[*len] = c;
+      *len += 1;
+      outstr[*len] = '\0';
+      }
+   }
+
+/**
+ * @english
+ * Same as bufr_print_binary() for a buffer of known size: nothing is written
+ * beyond outstr[size-1]; digits that do not fit are dropped.
+ * @endenglish
+ * @francais
+ * @todo translate to French
+ * @endfrancais
+ * @ingroup descriptor debug
+ */
+void bufr_snprint_binary ( char *outstr, size_t size, int64_t  ival, int nbit )
+   {
    int  len;
    uint64_t  bval;
+   size_t    pos;
 
+   if (size == 0) return;
    outstr[0] = '\0';
+   pos = 0;
 
    if (ival < 0)
       {
       len = nbit;
       while (len > 0)
          {
-         strcat( outstr, "1" );
+         add_char( outstr, size, &pos, '1' );
          --len;
          }
       return;
@@ -1925,17 +2006,17 @@ void bufr_print_binary ( char *outstr, int64_t  ival, int nbit )
    len = nbit - len;
    while (len > 0)
       {
-      strcat( outstr, "0" );
+      add_char( outstr, size, &pos, '0' );
       --len;
       }
 
    while ( ival > 0 )
       {
       if (bval > ival)
-         strcat( outstr, "0" );
+         add_char( outstr, size, &pos, '0' );
       else
          {
-         strcat( outstr, "1" );
+         add_char( outstr, size, &pos, '1' );
          ival = ival - bval;
          }
       bval = bval >> 1;
@@ -1945,7 +2026,7 @@ void bufr_print_binary ( char *outstr, int64_t  ival, int nbit )
       {
       while (bval >= 1)
          {
-         strcat( outstr, "0" );
+         add_char( outstr, size, &pos, '0' );
          bval = bval >> 1;
          }
       }
@@ -1970,8 +2051,15 @@ void bufr_print_binary ( char *outstr, int64_t  ival, int nbit )
  */
 void bufr_print_double( char *str, double dval )
    {
-   sprintf( str, "%f", dval );
-   if (bufr_is_trimzero())
+   print_double_n( str, INT_MAX, dval );
+   }
+
+static void print_double_n( char *str, size_t size, double dval )
+   {
+   int  len;
+
+   len = snprintf( str, size, "%f", dval );
+   if (bufr_is_trimzero() && (len >= 0) && ((size_t)len < size))
       str_trimchar( str, '0' );
    }
 
@@ -1995,7 +2083,11 @@ void bufr_print_double( char *str, double dval )
  */
 void bufr_print_scaled_double( char *str, double dval, int scale )
    {
-   int  len;
+   print_scaled_double_n( str, INT_MAX, dval, scale );
+   }
+
+static void print_scaled_double_n( char *str, size_t size, double dval, int scale )
+   {
    char format[256];
 
    if (scale < 0)
@@ -2006,7 +2098,7 @@ void bufr_print_scaled_double( char *str, double dval, int scale )
       {
       sprintf( format, "%%.%df", scale );
       }
-   sprintf( str, format, dval );
+   snprintf( str, size, format, dval );
    }
 
 /**
